@@ -363,31 +363,54 @@ Unmapped == At("<unmapped>")
 LayerName(x) == IF IsL(x) /\ Len(Kids(x)) >= 1 THEN Kids(x)[1] ELSE x
 LayerOpts(x) == IF IsL(x) /\ Len(Kids(x)) >= 1 THEN Li(Tail(Kids(x))) ELSE Li(<<>>)
 
-\* (deflayermap (name) k1 a1 ...): explicit keys first, `_` fills the defsrc keys that are still unmapped
-RECURSIVE MapPairs(_, _, _, _, _, _)
-MapPairs(ks, k, src, row, extra, anyused) ==
-   IF k > Len(ks) THEN <<"ok", row, extra>>
+\* (deflayermap (name) k1 a1 ...).  docs/config.adoc, deflayermap: the special inputs map "all the keys that are
+\* not explicitly mapped in the layer" - `_` those defined in defsrc, `__` those not defined in defsrc, `___` both.
+\* The pair list is a map: the position of a wildcard pair among the explicit pairs has no meaning (an explicit
+\* pair wins over a wildcard wherever it stands).  `__`/`___` need process-unmapped-keys yes.
+\* `other` = the action of the keys outside defsrc that no explicit pair names.
+Wild == {"_", "__", "___"}
+RECURSIVE MapPairs(_, _, _, _, _, _, _)
+MapPairs(ks, k, src, row, extra, used, other) ==
+   IF k > Len(ks) THEN <<"ok", row, extra, other>>
    ELSE IF k + 1 > Len(ks) THEN <<"input must be followed by an action">>
-   ELSE LET key == ks[k]  a == ks[k + 1] IN
+   ELSE LET key == ks[k]  a == ks[k + 1]
+            Fill == [j \in 1..Len(row) |-> IF row[j] = Unmapped THEN a ELSE row[j]] IN
         IF IsA(key) /\ Txt(key) = "_" THEN
-            (IF anyused THEN <<"must have only one use of _ within a layer">>
-             ELSE MapPairs(ks, k + 2, src, [j \in 1..Len(row) |-> IF row[j] = Unmapped THEN a ELSE row[j]], extra, TRUE))
-        ELSE IF IsA(key) /\ Txt(key) \in {"__", "___"} THEN <<"__ and ___ are outside this model">>
+            (IF "_" \in used THEN <<"must have only one use of _ within a layer">>
+             ELSE IF "___" \in used THEN <<"must either use _ or ___ within a layer, not both">>
+             ELSE MapPairs(ks, k + 2, src, Fill, extra, used \cup {"_"}, other))
+        ELSE IF IsA(key) /\ Txt(key) = "__" THEN
+            (IF "__" \in used THEN <<"must have only one use of __ within a layer">>
+             ELSE IF "___" \in used THEN <<"must either use __ or ___ within a layer, not both">>
+             ELSE MapPairs(ks, k + 2, src, row, extra, used \cup {"__"}, a))
+        ELSE IF IsA(key) /\ Txt(key) = "___" THEN
+            (IF used # {} THEN <<"must have only one of _ / __ with ___, and ___ once, within a layer">>
+             ELSE MapPairs(ks, k + 2, src, Fill, extra, used \cup {"___"}, a))
         ELSE LET j == KeyIdx(src, key) IN
-             IF j # 0 THEN MapPairs(ks, k + 2, src, [row EXCEPT ![j] = a], extra, anyused)
-             ELSE MapPairs(ks, k + 2, src, row, extra \o <<key, a>>, anyused)
-NoRepeat(ks) == \A i, j \in {k \in 3..Len(ks) : k % 2 = 1} : (i # j /\ Txt(ks[i]) # "_") => ks[i] # ks[j]
+             IF j # 0 THEN MapPairs(ks, k + 2, src, [row EXCEPT ![j] = a], extra, used, other)
+             ELSE MapPairs(ks, k + 2, src, row, extra \o <<key, a>>, used, other)
+NoRepeat(ks) == \A i, j \in {k \in 3..Len(ks) : k % 2 = 1} : (i # j /\ ~(IsA(ks[i]) /\ Txt(ks[i]) \in Wild)) => ks[i] # ks[j]
+UsesOuterWild(ks) == \E i \in {k \in 3..Len(ks) : k % 2 = 1} : IsA(ks[i]) /\ Txt(ks[i]) \in {"__", "___"}
 
-NLayer(it, src) ==
+\* (defcfg ... process-unmapped-keys yes ...), read from the text
+Pum(items) == \E i \in 1..Len(items) : HeadIs(items[i], "defcfg") /\
+                 \E k \in 2..(Len(Kids(items[i])) - 1) :
+                    Kids(items[i])[k] = At("process-unmapped-keys") /\ Kids(items[i])[k + 1] = At("yes")
+
+\* a layer: <<"layer", name, options, row over defsrc, explicit pairs outside defsrc, action of all other keys>>.
+\* On a key outside defsrc the transparent action `_` is the same as no mapping at all (no block-unmapped-keys here).
+NLayer(it, src, pum) ==
    LET ks == Kids(it) IN
    IF Len(ks) < 2 THEN Err("layer needs a name")
    ELSE IF HeadIs(it, "deflayer") THEN
         (IF Len(ks) - 2 # Len(src) THEN Err("layer length does not match defsrc")
-         ELSE Li(<<At("layer"), LayerName(ks[2]), LayerOpts(ks[2]), Li(SubSeq(ks, 3, Len(ks))), Li(<<>>)>>))
+         ELSE Li(<<At("layer"), LayerName(ks[2]), LayerOpts(ks[2]), Li(SubSeq(ks, 3, Len(ks))), Li(<<>>), Unmapped>>))
    ELSE IF ~NoRepeat(ks) THEN Err("input key must not be repeated within a layer")
-   ELSE LET r == MapPairs(ks, 3, src, [j \in 1..Len(src) |-> Unmapped], <<>>, FALSE) IN
+   ELSE IF UsesOuterWild(ks) /\ ~pum THEN Err("must set process-unmapped-keys to yes to use __ / ___")
+   ELSE LET r == MapPairs(ks, 3, src, [j \in 1..Len(src) |-> Unmapped], <<>>, {}, Unmapped) IN
         IF r[1] # "ok" THEN Err(r[1])
-        ELSE Li(<<At("layer"), LayerName(ks[2]), LayerOpts(ks[2]), Li(r[2]), Li(r[3])>>)
+        ELSE Li(<<At("layer"), LayerName(ks[2]), LayerOpts(ks[2]), Li(r[2]), Li(r[3]),
+                  IF r[4] = At("_") THEN Unmapped ELSE r[4]>>)
 
 \* ------------------------------------------------------------------ Norm
 REJECT == <<"REJECT">>
@@ -406,7 +429,7 @@ NormWhy(cfg) ==      \* <<"ok", items>> or <<"reject", why>>
             plain == SelectItems(pre)
             items == [k \in 1..Len(plain) |->
                         LET it == NItem(plain[k], cv.V, ca.A) IN
-                        IF HeadTxt(it) \in {"deflayer", "deflayermap"} /\ ~HasErr(it) THEN NLayer(it, src) ELSE it]
+                        IF HeadTxt(it) \in {"deflayer", "deflayermap"} /\ ~HasErr(it) THEN NLayer(it, src, Pum(pre)) ELSE it]
         IN IF \E k \in 1..Len(items) : HasErr(items[k]) THEN <<"reject", "unknown alias or ill-formed layer">>
            ELSE <<"ok", items>>
 
@@ -521,6 +544,50 @@ StepCond(cfg, loc, p1, p2, inlist, n) ==
        it2 == PutP(PutP(it, p1, Li(<<At("t!"), At(nm), At("k1")>>)), p2, Li(<<At("template-expand"), At(nm), At("k2")>>)) IN
    AppendMain(SetItem(cfg, loc, it2), Li(<<At("deftemplate"), At(nm), Li(<<At("zp")>>)>> \o body))
 
+\* --- nested conditional content (docs: deftemplate, if-equal / if-not-equal / if-in-list / if-not-in-list):
+\* the shape at site p becomes a template in which the sub-list e at q1 stands inside an OUTER conditional and the
+\* element at q2 of e stands inside an INNER conditional, i.e. a conditional in the body of a conditional.
+\*   q1 = <<>>            the outer conditional is a direct child of the template body ("top")
+\*   q1 # <<>>            it sits inside a list of the body (p = whole item: the body is a (deflayer ...) / (defalias ...)
+\*                        item; p = an action: inside (multi ...) / (tap-hold ...) ...)
+\*   k1, k2 \in 1..4      which of the four forms the outer / inner conditional is
+\*   t1, t2               truth of the outer / inner condition for the arguments of the call; a true one wraps
+\*                        the content, a false one is put in front of the content as a copy that must vanish
+CondT(k, v, xs) ==
+   CASE k = 1 -> Li(<<At("if-equal"), At(v), At("k1")>> \o xs)
+     [] k = 2 -> Li(<<At("if-not-equal"), At("k2"), At(v)>> \o xs)
+     [] k = 3 -> Li(<<At("if-in-list"), At(v), Li(<<At("k1"), At("k3")>>)>> \o xs)
+     [] OTHER -> Li(<<At("if-not-in-list"), At(v), Li(<<At("k2"), Li(<<At("k3")>>)>>)>> \o xs)
+CondF(k, v, xs) ==
+   CASE k = 1 -> Li(<<At("if-equal"), At(v), At("k2")>> \o xs)
+     [] k = 2 -> Li(<<At("if-not-equal"), At(v), At("k1")>> \o xs)
+     [] k = 3 -> Li(<<At("if-in-list"), At(v), Li(<<At("k2"), At("k3")>>)>> \o xs)
+     [] OTHER -> Li(<<At("if-not-in-list"), At(v), Li(<<At("k3"), Li(<<At("k1")>>)>>)>> \o xs)
+\* the element at the non-empty path p of t replaced by the sequence xs (spliced into its parent list)
+RECURSIVE SpliceP(_, _, _)
+SpliceP(t, p, xs) ==
+   IF Len(p) = 1 THEN Li(SubSeq(Kids(t), 1, p[1] - 1) \o xs \o SubSeq(Kids(t), p[1] + 1, Len(Kids(t))))
+   ELSE Li([Kids(t) EXCEPT ![p[1]] = SpliceP(Kids(t)[p[1]], Tail(p), xs)])
+NoSpliceParents == ExpandNames \cup CondNames \cup {"concat"}   \* lists whose elements are not plain content
+CanNest(cfg, loc, p, q1, q2) ==
+   /\ p \in TplSites(ItemAt(cfg, loc))
+   /\ LET shape == GetP(ItemAt(cfg, loc), p) IN
+      /\ q1 \in AllPaths(shape) /\ IsL(GetP(shape, q1))
+      /\ q2 # <<>> /\ q2 \in AllPaths(GetP(shape, q1))
+      /\ \A m \in 0..(Len(q1) + Len(q2) - 1) : HeadTxt(GetP(shape, SubSeq(q1 \o q2, 1, m))) \notin NoSpliceParents
+StepNest(cfg, loc, p, q1, q2, k1, k2, t1, t2, n) ==
+   LET it == ItemAt(cfg, loc)
+       shape == GetP(it, p)
+       e == GetP(shape, q1)
+       e2 == GetP(e, q2)
+       nm == "zT" \o Num(n)
+       inner == IF t2 THEN <<CondT(k2, "$zd", <<e2>>)>> ELSE <<CondF(k2, "$zd", <<e2>>), e2>>
+       eN == SpliceP(e, q2, inner)
+       outer == IF t1 THEN <<CondT(k1, "$zc", <<eN>>)>> ELSE <<CondF(k1, "$zc", <<eN>>), e>>
+       body == Kids(SpliceP(Li(<<shape>>), <<1>> \o q1, outer))
+       call == Li(<<At(IF n % 2 = 0 THEN "t!" ELSE "template-expand"), At(nm), At("k1"), At("k1")>>) IN
+   AppendMain(SetItem(cfg, loc, PutP(it, p, call)), Li(<<At("deftemplate"), At(nm), Li(<<At("zc"), At("zd")>>)>> \o body))
+
 \* --- move a top-level item of the main text into a new included file (docs: Include other files)
 CanInclude(cfg, i) ==
    /\ i \in 1..Len(cfg.main)
@@ -556,5 +623,33 @@ StepLayerMap(cfg, loc) ==
    LET it == ItemAt(cfg, loc)  in == Inner(it)  src == RawSrc(cfg)  ks == Kids(in)
        nm == IF IsL(ks[2]) THEN ks[2] ELSE Li(<<ks[2]>>)
        in2 == Li(<<At("deflayermap"), nm>> \o Cat([k \in 1..Len(src) |-> <<src[k], ks[k + 2]>>])) IN
+   SetItem(cfg, loc, PutP(it, Pfx(it), in2))
+\* --- a deflayer as a deflayermap with a wildcard pair (docs: deflayermap, special input names)
+\*   w = "_"   : the defsrc keys of the set G, which all carry one action v, are not listed; `_ v` stands for them
+\*   w = "__"  : every defsrc key is listed; `__ _` (transparent, as in the deflayer) stands for the keys outside defsrc
+\*   w = "___" : the keys of G carry `_` and are not listed; `___ _` stands for them and for the keys outside defsrc
+\* pos \in 0..(number of listed keys): the wildcard pair stands after `pos` explicit pairs - first, middle or last;
+\* the documentation gives the position no meaning.  `__`/`___` need (defcfg process-unmapped-keys yes).
+RawPum(cfg) == LET xs == AllItems(cfg) IN Pum([i \in 1..Len(xs) |-> Inner(xs[i])])
+CanLayerMapW(cfg, loc, w, G, pos) ==
+   /\ CanLayerMap(cfg, loc)
+   /\ LET ks == Kids(Inner(ItemAt(cfg, loc)))  src == RawSrc(cfg) IN
+      /\ G \subseteq 1..Len(src)
+      /\ \A i, j \in 1..Len(src) : i # j => src[i] # src[j]
+      /\ pos \in 0..(Len(src) - Cardinality(G))
+      /\ CASE w = "_"   -> G # {} /\ \A i, j \in G : ks[i + 2] = ks[j + 2]
+           [] w = "__"  -> G = {} /\ RawPum(cfg)
+           [] w = "___" -> RawPum(cfg) /\ \A i \in G : ks[i + 2] = At("_")
+           [] OTHER -> FALSE
+RECURSIVE ListedPairs(_, _, _, _)
+ListedPairs(src, ks, G, k) == IF k > Len(src) THEN <<>>
+                              ELSE (IF k \in G THEN <<>> ELSE <<<<src[k], ks[k + 2]>>>>) \o ListedPairs(src, ks, G, k + 1)
+StepLayerMapW(cfg, loc, w, G, pos) ==
+   LET it == ItemAt(cfg, loc)  in == Inner(it)  src == RawSrc(cfg)  ks == Kids(in)
+       nm == IF IsL(ks[2]) THEN ks[2] ELSE Li(<<ks[2]>>)
+       v == IF w = "_" THEN ks[(CHOOSE i \in G : \A j \in G : i <= j) + 2] ELSE At("_")
+       ps == ListedPairs(src, ks, G, 1)
+       all == SubSeq(ps, 1, pos) \o << <<At(w), v>> >> \o SubSeq(ps, pos + 1, Len(ps))
+       in2 == Li(<<At("deflayermap"), nm>> \o Cat(all)) IN
    SetItem(cfg, loc, PutP(it, Pfx(it), in2))
 =============================================================================
